@@ -83,14 +83,18 @@ Definition holds (c : case) : bool :=
 (* finding classes (consulted only when holds is false): everything but the name-identifier clause holds and
    1 = a fresh identifier carries the format the pre-d41562bb nim_args would have looked up under a foreign
        SPNameQualifier (C09-F1, fixed: seeing it again is a regression and is reported as a violation)
-   2 = an identifier found in the store was used whatever its format                    (C09-F2, open) *)
+   2 = the identifier the pre-9a92c673 store search (no format in force) would have picked was used although its
+       format is not the one in force (C09-F2, fixed: likewise a regression) *)
 Definition cls (c : case) : nat :=
   match c_out c with
   | Issued r =>
       if scope_b (c_in c) r && signed_as_demanded_b (c_in c) r && negb (nameid_ok_b (c_in c) r)
          && match c_sp c with Some (s, so) => e2e_b (c_in c) s r so | None => true end
       then match i_nameid_src r with
-           | Reused _ => 2
+           | Reused k => match choose_name_id_with (kwa_format_v0 (c_in c)) (nim_format (c_in c)) (c_in c) with
+                         | Some (_, Reused k') => if Nat.eqb k k' then 2 else 0
+                         | _ => 0
+                         end
            | Fresh => if negb (String.eqb (snq_of (c_in c)) (requester (c_in c)))
                          && opt_eqb String.eqb (n_format (i_nameid r)) (Some (nim_format_v0 (c_in c)))
                       then 1 else 0
